@@ -1246,9 +1246,19 @@ def _deserialize_attribute(
     if type_ == _enums.AttributeType.FLOATS:
         return _core.AttrFloat32s(name, proto.floats, doc_string=doc_string)
     if type_ == _enums.AttributeType.STRINGS:
-        return _core.AttrStrings(
-            name, [s.decode("utf-8") for s in proto.strings], doc_string=doc_string
-        )
+        try:
+            return _core.AttrStrings(
+                name, [s.decode("utf-8") for s in proto.strings], doc_string=doc_string
+            )
+        except UnicodeDecodeError:
+            # Same as for STRING: custom ops may store arbitrary bytes
+            logger.warning(
+                "Attribute %r contains invalid UTF-8 bytes. ONNX spec requires string attributes "
+                "to be UTF-8 encoded so the model is invalid. We will skip decoding the attribute and "
+                "use the bytes as attribute value",
+                name,
+            )
+            return _core.Attr(name, type_, list(proto.strings), doc_string=doc_string)
     if type_ == _enums.AttributeType.TENSOR:
         return _core.AttrTensor(name, deserialize_tensor(proto.t), doc_string=doc_string)
     if type_ == _enums.AttributeType.GRAPH:
@@ -2226,7 +2236,10 @@ def _fill_in_value_for_attribute(
         attribute_proto.type = onnx.AttributeProto.FLOATS
     elif type_ == _enums.AttributeType.STRINGS:
         # value: Sequence[str]
-        attribute_proto.strings.extend([s.encode("utf-8") for s in value])
+        # Entries kept as bytes (invalid UTF-8 in the source) are written back unchanged
+        attribute_proto.strings.extend(
+            [s if isinstance(s, bytes) else s.encode("utf-8") for s in value]
+        )
         attribute_proto.type = onnx.AttributeProto.STRINGS
     elif type_ == _enums.AttributeType.TENSOR:
         # value: _protocols.TensorProtocol
